@@ -33,7 +33,7 @@ ASSUMPTIONS = ["float tolerance 1e-6*max(1,|power|)",
 
 def budget(tier: str) -> dict[str, Any]:
     if tier == "quick":
-        return {"shards": 8, "cases": 25000}
+        return {"shards": 8, "cases": 50000}
     return {"shards": 32, "cases": 300000, "hashseeds": [0, 1, 2, 3, 4, 5, 6, 7]}
 
 
